@@ -4,7 +4,7 @@ from __future__ import annotations
 
 import ast
 
-from ..astutil import attr_chain, call_attr, calls_in, expand_value_calls, guard_facts, unparse, walk_local
+from ..astutil import attr_chain, call_attr, calls_in, expand_value_calls, guard_facts, unparse, walk_local, text_facts
 from ..cfg import CFG
 from ..dataflow import reaching_defs, resolved_text
 from ..report import Finding, Report
@@ -396,7 +396,7 @@ def check_dominance(idx: Index, rep: Report) -> None:
         c_ = CFG(fi.node)
         out = []
         for rt in [n for n in walk_local(fi.node) if isinstance(n, ast.Return) and n.value is not None]:
-            out.append((expand_value_calls(fi.module, resolved_text(c_, rt.value, c_.node_of(rt))), [(unparse(t), p_) for t, p_ in guard_facts(fi.node, rt)], rt))
+            out.append((expand_value_calls(fi.module, resolved_text(c_, rt.value, c_.node_of(rt))), text_facts(fi.node, rt), rt))
         return out
 
     def _not_same(facts, a, bb) -> bool:
